@@ -193,6 +193,30 @@ theorem c11_limits_text (c : TokCfg) (fieldMax : Nat) (value : List TRn) (tok : 
     simp only [Bool.and_eq_true, Bool.not_eq_eq_eq_not, Bool.not_true, decide_eq_true_eq] at hw2
     exact ⟨w, hw1, by intro he; simp [he] at hw2, hw2.2, rfl⟩
 
+/-- **Which type answers queries on a multi-type field.**  Whatever the order of the `types:` list, the `Main` type
+(the one the query parsers use for `field:value`) is the entry without a title, recorded under the field name itself,
+and `All` (what the indexer tokenizes) is every entry in list order under `field` / `field.title` - so the type that
+parses a query on `field` is the type that indexed the tokens named `field`. -/
+theorem c11_main_is_untitled (fn : List Nat) (types : List TypeIn) (main : MType) (all : List MType)
+    (h : convertTypes fn types = some (main, all)) :
+    (∃ t, t ∈ types ∧ t.title = [] ∧ main = ⟨fn, t.tt, t.size⟩) ∧
+    all = types.map (fun t => ⟨if t.title.isEmpty then fn else fn ++ [46] ++ t.title, t.tt, t.size⟩) ∧
+    main ∈ all := by
+  unfold convertTypes at h
+  split at h
+  · rename_i m a heq
+    simp only [Option.some.injEq, Prod.mk.injEq] at h
+    obtain ⟨rfl, rfl⟩ := h
+    have ha := convertLoop_all fn types [] none [] _ _ heq
+    have hm := convertLoop_main fn types [] none [] _ _ heq
+    simp only [List.nil_append] at ha
+    rcases hm with ⟨t, ht, h1, h2⟩ | hm
+    · refine ⟨⟨t, ht, h1, h2⟩, ha, ?_⟩
+      rw [ha, h2]
+      exact List.mem_map.mpr ⟨t, ht, by simp [h1]⟩
+    · simp at hm
+  · simp at h
+
 /-! ## Obligations on facts re-extracted from /repo on every run -/
 
 open SV.Extracted.C11
@@ -226,12 +250,25 @@ theorem c11_x_indexer :
       "TokenizerTypePath=tokenizer.NewPathTokenizer", "TokenizerTypeExists=tokenizer.NewExistsTokenizer"] ∧
     indexConds = ["!has", "tokenType.Title != \"\"", "value != nil"] := by decide
 
+/-- `convertMappingWithMultipleTypes`: `Main` is assigned exactly where the title is empty (with the field name as its
+title), titled entries get their own mapping key, `All` is the list in source order -/
+theorem c11_x_main_type :
+    mainTypeRule = ["title == \"\" => mappingTypes.Main = MappingType{Title: fn, TokenizerType: v, MaxSize: t.Size}",
+      "!(title == \"\") => finalMapping[title] = NewSingleType(v, title, t.Size)", " => mappingTypes.All = types",
+      " => finalMapping[fn] = mappingTypes"] ∧
+    allTypesRule = ["types := make([]MappingType, 0, len(el.Types))",
+      "types = append(types, MappingType{Title: title, TokenizerType: v, MaxSize: t.Size})"] := by decide
+
 /-- the case-sensitive branch of `toLowerIfCaseInsensitive` is the normalising one (fix 11c549f):
 `if utf8.Valid(x) { return x }; return bytes.Map(identity, x)` -/
 theorem c11_x_case_sensitive_branch :
     csNormalizesInvalid = true ∧ toLowerIfConds = ["isCaseSensitive", "utf8.Valid(x)"] := by decide
 
 /-! ## Non-vacuity -/
+
+/-- a multi-type field whose main (untitled) type is listed second: `Main` is still the keyword type under the field name -/
+example : convertTypes [109] [⟨[116], .text, 0⟩, ⟨[], .keyword, 0⟩]
+    = some (⟨[109], .keyword, 0⟩, [⟨[109, 46, 116], .text, 0⟩, ⟨[109], .keyword, 0⟩]) := by decide
 
 /-- `İs` (U+0130 lower-cases to the one-byte `i`): the in-place pass gives up and `bytes.Map` finishes: `is` -/
 example :
